@@ -710,7 +710,11 @@ class Translator:
         if k == "opt":
             if m == "is_some": return self.bindall([recv], lambda c: Val(f"(opt_is_some {c[0]})", BOOL, True))
             if m == "is_none": return self.bindall([recv], lambda c: Val(f"(opt_is_none {c[0]})", BOOL, True))
-            if m == "unwrap": return self.bindall([recv], lambda c: Val(f"(opt_unwrap {c[0]})", rt[1], False))
+            if m in ("unwrap", "expect"): return self.bindall([recv], lambda c: Val(f"(opt_unwrap {c[0]})", rt[1], False))
+            if m == "unwrap_or" and len(args) == 1:
+                d = self.tr_expr(args[0], ctx, env)
+                x = self.fresh()
+                return self.bindall([recv, d], lambda c: Val(f"(match {c[0]} with Some {x} => {x} | None => {c[1]} end)", rt[1], True))
         if k == "str":
             if m == "is_empty": return self.bindall([recv], lambda c: Val(f"(match {c[0]} with [] => true | _ => false end)", BOOL, True))
             if m in ("to_owned", "to_string", "as_str"): return recv
